@@ -257,9 +257,9 @@ PROPS["C07"] = [("verus", "lat_pair"),
 PROPS["C17"] = [("verus", "uf_dfir")]
 
 _C36_QUICK = ["harness::run_hooks", "harness::stream_", "harness::release_", "harness::singleton_", "harness::passthrough_",
-              "harness::top_level_", "harness::merge_ordered_inline_0_2"]
+              "harness::top_level_", "harness::merge_ordered_inline_0_2", "harness::merge_ordered_script_2_2"]
 PROPS["C36"] = [("kani", "vk_sim", _C36_QUICK, ("quick",)),
-                ("kani", "vk_sim", _C36_QUICK + ["harness::slow_"], ("thorough",))]
+                ("kani", "vk_sim", _C36_QUICK + ["harness::slow_", "harness::merge_ordered_script_"], ("thorough",))]
 
 LEVEL = {
     # "proof": the deciding obligations are deductive proofs (Verus) of the real bodies, generic and unbounded; the bounded Kani complement is listed
